@@ -201,6 +201,8 @@ pub fn alphabet(cs: u32) -> Vec<Op> {
         Op::WriteAll { h: 0, len: cs },
         Op::WriteAll { h: 0, len: 2 * cs + 1 },
         Op::Flush { h: 0 },
+        Op::Seek { h: 0, pos: harness::sess::SeekSpec::Start(0) },
+        Op::Seek { h: 0, pos: harness::sess::SeekSpec::Start(1) },
         Op::DropFile { h: 0 },
         Op::OpenFile { base: r, path: s("f"), keep: Some(0) },
         // later operations that do not modify f
@@ -222,7 +224,13 @@ pub fn specs(tier: &str) -> Vec<ExpSpec> {
     let mut v = Vec::new();
     for ft in [FatType::Fat12, FatType::Fat16, FatType::Fat32] {
         let cfg = vol::tiny_with(ft, 12, 16);
-        v.push(ExpSpec::new(cfg, alphabet(512), if th { 6 } else { 4 }));
+        v.push(ExpSpec::new(cfg.clone(), alphabet(512), if th { 6 } else { 4 }));
+        // f already exists with one flushed cluster: in-place overwrites and re-flushes within the same depth
+        let mut c2 = cfg;
+        c2.name = format!("{}-prefilled", c2.name);
+        let r = DirRef::Root;
+        let prefix = vec![Op::CreateFile { base: r, path: "f".into(), keep: Some(0) }, Op::WriteAll { h: 0, len: 512 }, Op::Flush { h: 0 }];
+        v.push(ExpSpec::new(c2, alphabet(512), if th { 5 } else { 4 }).with_prefix(prefix));
     }
     let _ = new_dev;
     v
